@@ -198,6 +198,21 @@ def _check_case(case: dict) -> List[Tuple[str, str]]:
                             a, b = t.allclose(v, equal_nan=en), v.allclose(t, equal_nan=en)
                             if a != w or b != w:
                                 out.append(("allclose.representation", f"t vs {name}: allclose(equal_nan={en}) observed {a},{b} expected {w}; dense {D.tolist()}"))
+                # views that share t's PhysicalAxis objects in another arrangement (equal/allclose must freshen)
+                if t.ndim >= 2:
+                    for perm in itertools.permutations(range(t.ndim)):
+                        if list(perm) == list(range(t.ndim)): continue
+                        for name, v, Dv, a0, D0 in ((f"permute{perm}", t.permute(perm), D.permute(*perm), t, D),
+                                                    (f"flatten-of-permute{perm}", t.permute(perm).flatten(), D.permute(*perm).flatten(), t.flatten(), D.flatten())):
+                            w = tuple(D0.size()) == tuple(Dv.size()) and bool(torch.equal(D0, Dv))
+                            a, b = a0.equal(v), v.equal(a0)
+                            if a != w or b != w:
+                                out.append(("equal.shared_axes", f"t vs {name}: equal observed {a},{b} expected {w}; dense {D.tolist()}"))
+                            if D.is_floating_point() and tuple(D0.size()) == tuple(Dv.size()):
+                                w = _allclose(D0, Dv, 1e-5, 1e-8, False)
+                                a, b = a0.allclose(v), v.allclose(a0)
+                                if a != w or b != w:
+                                    out.append(("allclose.shared_axes", f"t vs {name}: allclose observed {a},{b} expected {w}; dense {D.tolist()}"))
                 # shape mismatch => False
                 others = [("unsqueeze0", lambda: t.unsqueeze(0)), ("flatten", lambda: t.flatten() if t.ndim != 1 else t.unsqueeze(-1)),
                           ("scalar", lambda: I.PatternedTensor(torch.zeros((), dtype=D.dtype)) if t.ndim else I.PatternedTensor(torch.zeros((1,), dtype=D.dtype)))]
